@@ -355,7 +355,13 @@ class SFixed(Template[_FixedTemplateArg], AssignableType):
                 overflow_bits = self._val.lsb(rest=1).msb(overflow_bitcnt)
 
                 does_overflow = not sign_bit and overflow_bits
-                does_underflow = sign_bit and ~overflow_bits
+
+                if overflow >= self._width:
+                    # all source bits lie above the target range,
+                    # every negative value underflows
+                    does_underflow = sign_bit
+                else:
+                    does_underflow = sign_bit and ~overflow_bits
 
                 if selfright >= right:
                     zeros = selfright - right
@@ -413,7 +419,9 @@ class SFixed(Template[_FixedTemplateArg], AssignableType):
                         selected_bits = self._val.lsb(rest=overflow + 1).msb(
                             rest=cutoff
                         )
-                        overflow_or_full = does_overflow or not ~selected_bits
+                        overflow_or_full = does_overflow or (
+                            not sign_bit and not ~selected_bits
+                        )
 
                         return Result(
                             raw=Value[Signed[Result._width]](
@@ -461,11 +469,28 @@ class SFixed(Template[_FixedTemplateArg], AssignableType):
                             else Signed[2](0)
                         )
 
-                    return Result(
-                        raw=Value[Signed[Result._width]](
-                            self._val.msb(rest=cutoff).signed.resize(Result._width)
-                            + do_round
+                    kept_bits = self._val.msb(rest=cutoff).signed.resize(Result._width)
+
+                    if (
+                        overflow_style is FixedOverflowStyle.SATURATE
+                        and selfleft == left
+                    ):
+                        # rounding up the largest value would carry
+                        # out of the target range
+                        return Result(
+                            raw=Value[Signed[Result._width]](
+                                choose_first(
+                                    (
+                                        kept_bits == Signed[Result._width].max(),
+                                        Signed[Result._width].max(),
+                                    ),
+                                    default=kept_bits + do_round,
+                                )
+                            )
                         )
+
+                    return Result(
+                        raw=Value[Signed[Result._width]](kept_bits + do_round)
                     )
 
 
@@ -798,9 +823,28 @@ class UFixed(Template[_FixedTemplateArg], AssignableType):
                             else Unsigned[1](0)
                         )
 
-                    return Result(
-                        raw=Value[Unsigned[Result._width]](
-                            self._val.msb(rest=cutoff).unsigned.resize(Result._width)
-                            + do_round
+                    kept_bits = self._val.msb(rest=cutoff).unsigned.resize(
+                        Result._width
+                    )
+
+                    if (
+                        overflow_style is FixedOverflowStyle.SATURATE
+                        and selfleft == left
+                    ):
+                        # rounding up the largest value would carry
+                        # out of the target range
+                        return Result(
+                            raw=Value[Unsigned[Result._width]](
+                                choose_first(
+                                    (
+                                        kept_bits == Unsigned[Result._width].max(),
+                                        Unsigned[Result._width].max(),
+                                    ),
+                                    default=kept_bits + do_round,
+                                )
+                            )
                         )
+
+                    return Result(
+                        raw=Value[Unsigned[Result._width]](kept_bits + do_round)
                     )
